@@ -11,6 +11,7 @@ export CARGO_TARGET_DIR="$wt/target" CARGO_NET_OFFLINE=true
 if [ ! -d "$wt" ]; then git -C /repo worktree add -q --detach "$wt" HEAD || exit 2; fi
 cd "$wt" || exit 2
 git checkout -q -- . ; git clean -fdq -e target
+git checkout -q --detach "$(git -C /repo rev-parse HEAD)" 2>/dev/null
 log="$seed/confirm.log"; : > "$log"
 git apply "$seed/demo.diff" >>"$log" 2>&1 || { echo "CONFIRM $name demo.diff does not apply"; exit 1; }
 timeout 1500 bash "$seed/run_demo.sh" >>"$log" 2>&1; d0=$?
